@@ -169,8 +169,32 @@ class SM:
             if alt[0] == "agg" and alt[1] == "adt" and "Metrics::" in alt[2]:
                 outs.add(alt[2].split("::")[-1])
             else:
-                outs.add("?" + fmt_t(alt)[:60])
+                v_ = self._elem_variant(n, alt)
+                outs.add(v_ if v_ else "?" + fmt_t(alt)[:60])
         return "|".join(sorted(outs))
+
+    def _elem_variant(self, n, alt):
+        """`iter.map(Metrics::Variant).for_each(|m| self.report_metrics(m))`: the closure's parameter is an element of an
+        iterator whose last adaptor applies a variant constructor — that variant."""
+        cx = n.ctx
+        while cx is not None and cx.how and cx.how[0] == "call":
+            cx = cx.parent      # resolution went up through plain calls and stopped at the closure's own parameter
+        how = cx.how if cx is not None else None
+        if lib.strip_refs(alt) != ("param", 2) or not how or how[0] != "closure" or cx.parent is None:
+            return None
+        t = how[1]
+        if not lib.callee_is(t, "std::iter::Iterator::for_each") or not t.get("args"):
+            return None
+        recv = lib.strip_refs(cx.parent.bv.trace_op(t["args"][0]))
+        if recv[0] == "call" and lib.norm(recv[1]) == "std::iter::Iterator::map" and len(recv[2]) == 2:
+            f = lib.strip_refs(recv[2][1])
+            if f[0] == "const" and isinstance(f[1], dict):
+                sname = f[1].get("s") or ""
+                ty_ = cx.parent.bv.crate.types[f[1]["t"]] if isinstance(f[1].get("t"), int) else {}
+                path_ = ty_.get("d") or sname
+                if "Metrics::" in path_:
+                    return path_.split("::")[-1]
+        return None
 
     def metrics(self, S, which=None):
         return [n.idx for n in S.nodes if S.ev[n.idx] and S.ev[n.idx][0] == "metric" and (which is None or S.ev[n.idx][1] == which)]
